@@ -1971,7 +1971,7 @@ def gen_worlds(pid, tier, seed):
     rng = random.Random("%s/%s/%d" % (pid, "worlds", seed))
     n = {"quick": 224, "thorough": 2240}[tier]
     if pid == "C09":
-        n = {"quick": 42, "thorough": 280}[tier]
+        n = {"quick": 32, "thorough": 200}[tier]
     modes = ["hand", "hand", "jg", "yaml"]
     dls = ["loose", "tight", "tight1", "hopeless", "mixed"]
     scheds = ["EDF", "FIFO", "LSF"]
